@@ -10,9 +10,9 @@ def P(binary, shards=(6, 16), watchdog=(1500, 14400), floor=(2, 2), **kw):
 
 
 PROPS = {
-    "C12": P("pure", shards=(8, 16), floor=(40, 40)),
+    "C12": P("pure", shards=(8, 16), floor=(40, 40), gomaxprocs=4),
     "C13": P("pure", shards=(8, 16), floor=(20, 20), gomaxprocs=4),
-    "C14": P("pure", shards=(8, 16), floor=(20, 20), exhaustive={"quick": False, "thorough": True}),
+    "C14": P("pure", shards=(8, 16), floor=(20, 20), gomaxprocs=4, exhaustive={"quick": False, "thorough": True}),
     "C15": P("pure", shards=(8, 16), floor=(10, 10)),
     "C16": P("pure", shards=(8, 16), floor=(10, 10)),
     "C17": P("pure", shards=(8, 16), floor=(10, 10), also=[{"binary": "appmon", "shards": {"quick": 2, "thorough": 8}}]),
